@@ -400,6 +400,142 @@ func propertyHolds(c tcase, acked bool, w *world) (bool, string) {
 	return true, ""
 }
 
+// ---------------------------------------------------------------- concurrent bulks (oracle only)
+
+// cworld: several bulks in flight on ONE client (shards, breakers and any per-shard buffers are shared by all
+// in-flight bulks).  Outcomes and latencies are scripted per (host, payload, n-th call for that payload); the
+// property is checked per payload on the call log.  No model comparison here: the model is per bulk.
+type cworld struct {
+	mu     sync.Mutex
+	script map[string][]cout // host + "/" + payload id -> outcomes
+	ncalls map[string]int
+	okCall map[string]bool // host + "/" + payload id -> some successful call carried exactly that payload
+}
+
+type cout struct {
+	ok      bool
+	delayMs int
+}
+
+type cfake struct {
+	storeapi.StoreApiClient
+	host string
+	w    *cworld
+}
+
+func (f *cfake) Bulk(ctx context.Context, in *storeapi.BulkRequest, _ ...grpc.CallOption) (*emptypb.Empty, error) {
+	key := f.host + "/" + string(in.Metas)
+	f.w.mu.Lock()
+	n := f.w.ncalls[key]
+	f.w.ncalls[key] = n + 1
+	o := cout{ok: true}
+	if sc := f.w.script[key]; n < len(sc) {
+		o = sc[n]
+	}
+	f.w.mu.Unlock()
+	if o.delayMs > 0 {
+		time.Sleep(time.Duration(o.delayMs) * time.Millisecond)
+	}
+	if !o.ok {
+		return nil, errors.New("scripted failure")
+	}
+	f.w.mu.Lock()
+	if string(in.Docs) == "docs-"+string(in.Metas) {
+		f.w.okCall[key] = true
+	}
+	f.w.mu.Unlock()
+	return &emptypb.Empty{}, nil
+}
+
+// runConcurrent returns one violation description per acknowledged bulk without a full replica set.
+func runConcurrent(rng *vh.RNG, hotS, hotR, coldS, coldR, nbulks int, directed bool) (cases []string, bad []string) {
+	w := &cworld{script: map[string][]cout{}, ncalls: map[string]int{}, okCall: map[string]bool{}}
+	clients := map[string]storeapi.StoreApiClient{}
+	var hostsAll []string
+	for _, t := range []struct {
+		tier string
+		S, R int
+	}{{"c", coldS, coldR}, {"h", hotS, hotR}} {
+		for s := 0; s < t.S; s++ {
+			for r := 0; r < t.R; r++ {
+				h := hostName(t.tier, s, r)
+				clients[h] = &cfake{host: h, w: w}
+				hostsAll = append(hostsAll, h)
+			}
+		}
+	}
+	verifhook.SetShuffle(func(n int) []int {
+		p := make([]int, n)
+		for i := range p {
+			p[i] = i
+		}
+		return p
+	})
+	defer verifhook.SetShuffle(nil)
+	cl := bulk.NewSeqDBClient(&stores.Stores{Shards: hosts("h", hotS, hotR)}, &stores.Stores{Shards: hosts("c", coldS, coldR)}, breakerCfg, clients)
+	ids := make([]string, nbulks)
+	starts := make([]int, nbulks)
+	for b := 0; b < nbulks; b++ {
+		ids[b] = fmt.Sprintf("p%d", b)
+		starts[b] = rng.Intn(25)
+		for _, h := range hostsAll {
+			var outs []cout
+			for k := 0; k < 3; k++ {
+				outs = append(outs, cout{ok: !rng.Chance(35, 100), delayMs: rng.Intn(40)})
+			}
+			w.script[h+"/"+ids[b]] = outs
+		}
+	}
+	if directed && nbulks >= 2 && hotR >= 2 {
+		// bulk 0: replica 0 of hot shard 0 always fails fast, the last replica succeeds slowly; bulk 1 enters the same
+		// shard inside that window and succeeds everywhere
+		h0, hl := hostName("h", 0, 0), hostName("h", 0, hotR-1)
+		for _, h := range hostsAll {
+			w.script[h+"/p0"] = []cout{{true, 0}, {true, 0}, {true, 0}}
+			w.script[h+"/p1"] = []cout{{true, 0}, {true, 0}, {true, 0}}
+		}
+		w.script[h0+"/p0"] = []cout{{false, 0}, {false, 0}, {false, 0}}
+		w.script[hl+"/p0"] = []cout{{true, 60}, {true, 0}, {true, 0}}
+		starts[0], starts[1] = 0, 20
+	}
+	acked := make([]bool, nbulks)
+	var wg sync.WaitGroup
+	for b := 0; b < nbulks; b++ {
+		wg.Add(1)
+		go func(b int) {
+			defer wg.Done()
+			time.Sleep(time.Duration(starts[b]) * time.Millisecond)
+			defer func() { recover() }()
+			err := cl.StoreDocuments(context.Background(), 1, []byte("docs-"+ids[b]), []byte(ids[b]))
+			acked[b] = err == nil
+		}(b)
+	}
+	wg.Wait()
+	full := func(tier string, S, R int, id string) bool {
+		if S == 0 {
+			return true
+		}
+		for s := 0; s < S; s++ {
+			all := true
+			for r := 0; r < R; r++ {
+				all = all && w.okCall[hostName(tier, s, r)+"/"+id]
+			}
+			if all {
+				return true
+			}
+		}
+		return false
+	}
+	for b := 0; b < nbulks; b++ {
+		desc := fmt.Sprintf("concurrent c%dx%d h%dx%d bulks=%d directed=%v bulk=%s acked=%v", coldS, coldR, hotS, hotR, nbulks, directed, ids[b], acked[b])
+		cases = append(cases, desc)
+		if acked[b] && (!full("h", hotS, hotR, ids[b]) || !full("c", coldS, coldR, ids[b])) {
+			bad = append(bad, desc)
+		}
+	}
+	return cases, bad
+}
+
 func genCase(r *vh.RNG, maxS, maxR int) tcase {
 	c := tcase{script: map[string][]bool{}}
 	c.hotS, c.hotR = r.Range(1, maxS), r.Range(1, maxR)
@@ -529,5 +665,28 @@ func main() {
 	}
 	rep.AddChannel(ch, o.Driver)
 	rep.AddOracle(orc)
+	if o.Replay == "" {
+		corc := vh.NewOracle("replica.concurrent", "several bulks in flight on one client (shared shards/breakers), scripted per-(host,payload,call) outcomes and latencies; per payload: acknowledged => a full replica set per tier accepted exactly that payload; non-trivial = acknowledged bulk")
+		crng := vh.NewRNG(o.Seed + 77)
+		for i := 0; i < o.Pick(12, 150); i++ {
+			hotS, hotR := crng.Range(1, 2), crng.Range(1, 3)
+			coldS, coldR := 0, 0
+			if crng.Chance(1, 3) {
+				coldS, coldR = 1, crng.Range(1, 2)
+			}
+			directed := i%3 == 0
+			if directed {
+				hotS, hotR, coldS, coldR = 1, 2, 0, 0
+			}
+			cases, bad := runConcurrent(crng, hotS, hotR, coldS, coldR, crng.Range(2, 5), directed)
+			for _, c := range cases {
+				corc.Case(fmt.Sprintf("%d:%s", i, c), strings.HasSuffix(c, "acked=true"), "directed="+vh.B(directed))
+			}
+			for _, b := range bad {
+				rep.Violate(vh.Violation{Site: "proxy/bulk/seqdb_client.go:shard.Bulk", Class: "concurrent-ack-without-full-replica-set", What: "acknowledged although no full replica set accepted this payload: " + b, Replay: []string{b}})
+			}
+		}
+		rep.AddOracle(corc)
+	}
 	rep.Write(o.Out)
 }
